@@ -11,6 +11,7 @@ CONSTANTS
   HookFailChoices <- NoHookFail
   LaunchToParent = TRUE
   ResumeOnDeath = FALSE
+  PausedAtBirth = FALSE
   LaunchInline = FALSE
 VIEW View
 INVARIANTS TypeOK KilledOnce ChildrenFirst NobodyStuck NoStrandedMail
